@@ -782,6 +782,9 @@ def systemNs : Str := "istio-system".toList
     its own `config_dump`; status generator `istio.io/debug/config_dump` / `istio.io/debug/syncz`; API generator. -/
 inductive DebugQuery
   | sds | full | sgdump | syncz | sgsyncz | api | self
+  | sdscds  -- config_dump?proxyID=V&types=sds,cds
+  | cds     -- config_dump?proxyID=V&types=cds (no secrets in it)
+  | ndsz | edsz
   deriving DecidableEq, Repr
 
 inductive DebugOutcome
@@ -794,9 +797,12 @@ def debugOutcome (asker : Option Identity) (q : DebugQuery) : DebugOutcome :=
   match asker with
   | none => .unauthenticated
   | some id =>
-    match q with
-    | .syncz | .api => if id.ns = systemNs then .accepted else .denied
-    | _ => .accepted
+    -- an identity without namespace proves no namespace: refused (an empty caller namespace would read as "unrestricted")
+    if id.ns = [] then .denied
+    else
+      match q with
+      | .syncz | .api => if id.ns = systemNs then .accepted else .denied
+      | _ => .accepted
 
 /-- Config dumps of another proxy are visible to the system namespace and to the proxy's own (config) namespace. -/
 def debugVisible (asker : Identity) (victimCfgNs : Str) : Bool := asker.ns = systemNs || victimCfgNs = asker.ns
@@ -807,8 +813,13 @@ def debugDump (asker : Option Identity) (q : DebugQuery) (victimCfgNs : Str) (vi
   | none => []
   | some id =>
     match q with
-    | .sds | .full | .sgdump => if debugVisible id victimCfgNs then victimSecrets.map (fun e => e.2.redacted) else []
+    | .sds | .full | .sgdump | .sdscds =>
+      if debugVisible id victimCfgNs then victimSecrets.map (fun e => e.2.redacted) else []
     | _ => []
+
+/-- What the asker is actually sent: the dump, if its stream is served at all. -/
+def debugAnswer (asker : Option Identity) (q : DebugQuery) (victimCfgNs : Str) (victimSecrets : List (Str × Val)) : List Str :=
+  if debugOutcome asker q = .accepted then debugDump asker q victimCfgNs victimSecrets else []
 
 /-! ### Private key providers (sds.go: pkpConfHash in the cache key, toEnvoyTLSSecret) -/
 
@@ -841,7 +852,7 @@ def generateP (w : World) (pcs : PCaches) (now : Nat) (acs : List (Str × AuthCa
     (names : List Str) (req : Option PushReq) : Option GenOut × PCaches × List (Str × AuthCache) :=
   let r := generateT w { cache := pcs.part hash, now := now, acs := acs } p names req
   match r.1 with
-  | some o => (some o, pcs.setPart hash o.cache, r.2.acs)
+  | some o => (some o, pcs.setPart hash r.2.cache, r.2.acs)
   | none => (none, pcs, r.2.acs)
 
 end IstioModel.C11
